@@ -124,6 +124,8 @@ def cms_width(ctx, cfg):
             return
         c = CountMinSketch(confidence=0.5, error_rate=e)
         integral = (2 / e) == math.floor(2 / e)
+        if cfg["half"] == "integral" and not integral or cfg["half"] == "non-integral" and integral:
+            return
         ctx.check(c.width == math.ceil(2 / e), "cms-width-is-ceil(2/e)")
         ctx.check(2 / c.width <= e, "cms-width-honours-error-rate" + (":rounded-quotient-integral" if integral else ""))
 
